@@ -130,8 +130,50 @@ let show_recs rs =
     | RecUnexpectedEof -> "Err:UnexpectedEof"
     | RecNoFuel -> "NoFuel") rs)
 
+(* kinds agff / afq / afa / awl: args = data cap sizes with_pending (awl: fmt seed sizes with_pending calls data);
+   poll script codes as for abam: 0 = Pending, k+1 = Ready k *)
+let script_codes sizes_s wp =
+  let sizes = if sizes_s = "_" then [] else List.map int_of_string (split_on ',' sizes_s) in
+  List.concat_map (fun k -> (if wp = "1" then [nat_of_int 0] else []) @ [nat_of_int (max k 1 + 1)]) sizes
+
+let show_int_list l = if l = [] then "_" else String.concat "," (List.map string_of_int l)
+
+let show_gff (ls, pos) =
+  String.concat ";" (List.map (fun (n, l) -> string_of_int (int_of_nat n) ^ ":" ^ hex_of_bytes l) ls)
+  ^ "|" ^ string_of_int (int_of_nat pos)
+
+let show_fastq ((rs, e), pos) =
+  let fr r = String.concat ":" (List.map hex_of_bytes [r.q_name; r.q_desc; r.q_seq; r.q_qual]) in
+  let fe = function None -> "ok" | Some QInvalidData -> "Err:InvalidData"
+                  | Some QUnexpectedEof -> "Err:UnexpectedEof" | Some QOutOfFuel -> "NoFuel" in
+  String.concat ";" (List.map fr rs) ^ "|" ^ fe e ^ "|" ^ string_of_int (int_of_nat pos)
+
+let sres_s = function SOk -> "Ok" | SNoFuel -> "NoFuel"
+
 let handle kind a =
   match kind with
+  | "agff" ->
+      let data = bytes_of_hex a.(0) and cap = nat_of_int (int_of_string a.(1)) in
+      Some ("sync=" ^ show_gff (sync_gff_case data)
+            ^ " async=" ^ show_gff (async_gff_case cap (script_codes a.(2) a.(3)) data))
+  | "afq" ->
+      let data = bytes_of_hex a.(0) and cap = nat_of_int (int_of_string a.(1)) in
+      Some ("sync=" ^ show_fastq (sync_fastq_case data)
+            ^ " async=" ^ show_fastq (async_fastq_case cap (script_codes a.(2) a.(3)) data))
+  | "afa" ->
+      let data = bytes_of_hex a.(0) and cap = nat_of_int (int_of_string a.(1)) in
+      let (sr, sseq) = sync_fasta_seq_case data in
+      let (((ar, aseq), n), pos) = async_fasta_seq_case cap (script_codes a.(2) a.(3)) data in
+      Some ("sync=" ^ sres_s sr ^ "|" ^ hex_of_bytes sseq
+            ^ " async=" ^ sres_s ar ^ "|" ^ hex_of_bytes aseq ^ "|" ^ string_of_int (int_of_nat n)
+            ^ "|" ^ string_of_int (int_of_nat pos))
+  | "awl" ->
+      let calls = if a.(4) = "_" then [] else List.map (fun x -> nat_of_int (int_of_string x)) (split_on ',' a.(4)) in
+      let ((r, sink), log) = async_write_case (script_codes a.(2) a.(3)) calls (bytes_of_hex a.(5)) in
+      let e = match r with WOk -> "ok" | WWriteZero -> "Err:WriteZero" | WNoFuel -> "NoFuel" in
+      Some ("calls=" ^ a.(4) ^ " sink=" ^ hex_of_bytes sink
+            ^ " transfers=" ^ show_int_list (List.map (fun (_, n) -> int_of_nat n) log)
+            ^ " offered=" ^ show_int_list (List.map (fun (o, _) -> int_of_nat o) log) ^ " end=" ^ e)
   | "abam" ->
       let data = bytes_of_hex a.(0) in
       let sizes = if a.(1) = "_" then [] else List.map int_of_string (split_on ',' a.(1)) in
